@@ -48,13 +48,13 @@ pub fn decode(u: &mut Bytes) -> Case {
     let field = u.choice(16);
     let cut = u.u16();
     let counters = (0..8)
-        .map(|_| match u.choice(6) {
+        .map(|_| match u.choice(7) {
             0 => 0,
             1 => 1,
             2 => u.u16() as u64,
             3 => u.u32() as u64,
-            4 => u64::MAX,
-            _ => (u.u32() as u64) << 20,
+            4 => [u64::MAX, u64::MAX - 1, (1u64 << 53) + 1, i64::MAX as u64, (1u64 << 62) + 12345][u.choice(5)],
+            _ => ((u.u32() as u64) << 32) | u.u32() as u64,
         })
         .collect();
     Case { family, f, name, nrules, doc, field, cut, counters }
@@ -84,6 +84,16 @@ fn float_for(f: &[u8], idx: usize, k: usize, counters: &[u64]) -> f64 {
     }
 }
 
+/// a u64 field: the menu, or (last quarter of the byte range) an arbitrary 64-bit value
+fn int_for(f: &[u8], idx: usize, k: usize, cn: &[u64], menu: &[u64]) -> u64 {
+    let b = f[idx].wrapping_add(k as u8 * 60);
+    if b >= 200 {
+        cn[(k + idx) % cn.len()]
+    } else {
+        pick((b as u16 * 255 / 199) as u8, menu)
+    }
+}
+
 fn mk_flow(f: &[u8], res: &str, k: usize, cn: &[u64]) -> flow::Rule {
     flow::Rule {
         resource: res.into(),
@@ -96,7 +106,7 @@ fn mk_flow(f: &[u8], res: &str, k: usize, cn: &[u64]) -> flow::Rule {
         warm_up_cold_factor: pick(f[5], &[0u32, 2, 3]),
         max_queueing_time_ms: pick(f[6], &[0u32, 10, 600_000]),
         stat_interval_ms: pick(f[7], &[0u32, 1, 1000, 2000, 700]),
-        low_mem_usage_threshold: pick(f[8], &[0u64, 1000, u64::MAX]),
+        low_mem_usage_threshold: int_for(f, 8, k, cn, &[0u64, 1000, u64::MAX]),
         high_mem_usage_threshold: pick(f[9], &[0u64, 100]),
         mem_low_water_mark: pick(f[11], &[0u64, 1024]),
         mem_high_water_mark: pick(f[12], &[0u64, 2048]),
@@ -104,7 +114,7 @@ fn mk_flow(f: &[u8], res: &str, k: usize, cn: &[u64]) -> flow::Rule {
     }
 }
 
-fn mk_hot(f: &[u8], res: &str, k: usize) -> hotspot::Rule {
+fn mk_hot(f: &[u8], res: &str, k: usize, cn: &[u64]) -> hotspot::Rule {
     let mut items = HashMap::new();
     match pick(f[10], &[0u8, 1, 2]) {
         1 => {
@@ -123,9 +133,9 @@ fn mk_hot(f: &[u8], res: &str, k: usize) -> hotspot::Rule {
         control_strategy: pick(f[1], &[hotspot::ControlStrategy::Reject, hotspot::ControlStrategy::Throttling]),
         param_index: pick(f[2], &[0isize, 1, -1, -3, isize::MAX, isize::MIN]),
         param_key: pick(f[3], &["", "k", " k\"|"]).to_string(),
-        threshold: pick(f[4].wrapping_add(k as u8 * 60), &[1u64, 0, 2, 1_000_000, u64::MAX]),
-        max_queueing_time_ms: pick(f[5], &[0u64, 10, u64::MAX]),
-        burst_count: pick(f[6], &[0u64, 1, 1_000_000]),
+        threshold: int_for(f, 4, k, cn, &[1u64, 0, 2, 1_000_000, u64::MAX]),
+        max_queueing_time_ms: int_for(f, 5, k, cn, &[0u64, 10, u64::MAX]),
+        burst_count: int_for(f, 6, k, cn, &[0u64, 1, 1_000_000]),
         duration_in_sec: pick(f[7], &[1u64, 0, 3]),
         params_max_capacity: pick(f[8], &[0usize, 1, 20_000]),
         specific_items: items,
@@ -138,7 +148,7 @@ fn mk_cb(f: &[u8], res: &str, k: usize, cn: &[u64]) -> cb::Rule {
         resource: res.into(),
         strategy: pick(f[0], &[cb::BreakerStrategy::ErrorCount, cb::BreakerStrategy::ErrorRatio, cb::BreakerStrategy::SlowRequestRatio]),
         retry_timeout_ms: pick(f[1], &[1000u32, 0, 1, u32::MAX]),
-        min_request_amount: pick(f[2], &[0u64, 1, u64::MAX]),
+        min_request_amount: int_for(f, 2, k, cn, &[0u64, 1, u64::MAX]),
         stat_interval_ms: pick(f[3], &[1000u32, 0, 7]),
         stat_sliding_window_bucket_count: pick(f[4], &[0u32, 1, 2, 7]),
         max_allowed_rt_ms: pick(f[5], &[0u64, 10]),
@@ -372,7 +382,7 @@ impl Property for C18 {
         vec![("prop", 300_000, 80), ("parse_rules", 1_500_000, 600), ("parse_metric_line", 2_000_000, 200)]
     }
     fn rule(&self) -> String {
-        "bytes -> family (five rule families or metric item), 1-3 rules built from the field menus of C12 (serialisable variants, finite floats incl. 0.1, 1/3, 0.30000000000000004, subnormal-boundary, and arbitrary 52-bit-mantissa values in [2^-70, 2^19], extreme integers), resource name from a pool with unicode, quotes, backslashes, control characters, the `|` separator and the empty string, override maps with such keys; document variant: compact / pretty / fields reordered / one field dropped / one field wrongly typed or unknown variant / truncated at a generated byte / not an array; oracle: parser(to_string(rules)) equals the rules (PartialEq and every field via the JSON value), a dropped field equals Default (id: fresh), malformed documents are Err and never panic, the parsed rule gives the same decisions as the original on a short entry script (flow, isolation, hotspot); metric items with arbitrary counters: from_string(to_string(item)) equals the item with `|` replaced by `_` in the name; non-trivial = rule differs from Default in >= 3 fields, or the name needs escaping, or a field was dropped; distinct = distinct decoded cases".into()
+        "bytes -> family (five rule families or metric item), 1-3 rules built from the field menus of C12 (serialisable variants, finite floats incl. 0.1, 1/3, 0.30000000000000004, subnormal-boundary, and arbitrary 52-bit-mantissa values in [2^-70, 2^19], extreme and arbitrary 64-bit integers incl. values above 2^53), resource name from a pool with unicode, quotes, backslashes, control characters, the `|` separator and the empty string, override maps with such keys; document variant: compact / pretty / fields reordered / one field dropped / one field wrongly typed or unknown variant / truncated at a generated byte / not an array; oracle: parser(to_string(rules)) equals the rules (PartialEq and every field via the JSON value), a dropped field equals Default (id: fresh), malformed documents are Err and never panic, the parsed rule gives the same decisions as the original on a short entry script (flow, isolation, hotspot); metric items with arbitrary counters: from_string(to_string(item)) equals the item with `|` replaced by `_` in the name; non-trivial = rule differs from Default in >= 3 fields, or the name needs escaping, or a field was dropped; distinct = distinct decoded cases".into()
     }
     fn assumptions(&self) -> Vec<String> {
         vec![
@@ -405,11 +415,11 @@ impl Property for C18 {
                 })
             }
             1 => {
-                let rules: Vec<hotspot::Rule> = (0..n).map(|k| mk_hot(f, res, k)).collect();
+                let rules: Vec<hotspot::Rule> = (0..n).map(|k| mk_hot(f, res, k, &case.counters)).collect();
                 let r0 = rules[0].clone();
                 judge_rules(&case, rules, serde_json::to_value(hotspot::Rule::default()).unwrap()).and_then(|ok| {
                     use sentinel_core::base::SentinelRule;
-                    if r0.is_valid().is_ok() && r0.duration_in_sec <= 3 && r0.threshold <= 1_000_000 && r0.max_queueing_time_ms <= 600_000 {
+                    if r0.is_valid().is_ok() && r0.duration_in_sec <= 3 && r0.threshold <= 1_000_000 && r0.burst_count <= 1_000_000 && r0.max_queueing_time_ms <= 600_000 && r0.specific_items.values().all(|v| *v <= 1_000_000) {
                         let parsed = rule_json_array_parser::<hotspot::Rule>(&serde_json::to_string(&vec![r0.clone()]).unwrap()).map_err(|e| ("valid-document-refused".to_string(), e.to_string()))?;
                         let a = decisions_hot(&r0, &script);
                         let b = decisions_hot(&parsed[0], &script);
